@@ -347,6 +347,136 @@ pub mod fake_std {
         }
     }
 
+    /// `std::sync` whose atomics are scheduling points under a simulator.
+    pub mod sync {
+        pub use ::std::sync::*;
+
+        /// Atomics that call [`yield_point`](super::super::yield_point) before every access.
+        pub mod atomic {
+            pub use ::std::sync::atomic::{Ordering, compiler_fence, fence};
+
+            macro_rules! hooked_int {
+                ($name:ident, $inner:ty, $prim:ty) => {
+                    #[derive(Debug, Default)]
+                    pub struct $name($inner);
+
+                    impl $name {
+                        pub const fn new(v: $prim) -> Self {
+                            Self(<$inner>::new(v))
+                        }
+                        pub fn load(&self, o: Ordering) -> $prim {
+                            super::super::super::yield_point("atomic.load");
+                            self.0.load(o)
+                        }
+                        pub fn store(&self, v: $prim, o: Ordering) {
+                            super::super::super::yield_point("atomic.store");
+                            self.0.store(v, o);
+                        }
+                        pub fn swap(&self, v: $prim, o: Ordering) -> $prim {
+                            super::super::super::yield_point("atomic.rmw");
+                            self.0.swap(v, o)
+                        }
+                        pub fn fetch_add(&self, v: $prim, o: Ordering) -> $prim {
+                            super::super::super::yield_point("atomic.rmw");
+                            self.0.fetch_add(v, o)
+                        }
+                        pub fn fetch_sub(&self, v: $prim, o: Ordering) -> $prim {
+                            super::super::super::yield_point("atomic.rmw");
+                            self.0.fetch_sub(v, o)
+                        }
+                        pub fn fetch_max(&self, v: $prim, o: Ordering) -> $prim {
+                            super::super::super::yield_point("atomic.rmw");
+                            self.0.fetch_max(v, o)
+                        }
+                        pub fn fetch_min(&self, v: $prim, o: Ordering) -> $prim {
+                            super::super::super::yield_point("atomic.rmw");
+                            self.0.fetch_min(v, o)
+                        }
+                        pub fn compare_exchange(
+                            &self,
+                            c: $prim,
+                            n: $prim,
+                            s: Ordering,
+                            f: Ordering,
+                        ) -> Result<$prim, $prim> {
+                            super::super::super::yield_point("atomic.rmw");
+                            self.0.compare_exchange(c, n, s, f)
+                        }
+                        pub fn compare_exchange_weak(
+                            &self,
+                            c: $prim,
+                            n: $prim,
+                            s: Ordering,
+                            f: Ordering,
+                        ) -> Result<$prim, $prim> {
+                            super::super::super::yield_point("atomic.rmw");
+                            self.0.compare_exchange(c, n, s, f)
+                        }
+                        pub fn fetch_update<F: FnMut($prim) -> Option<$prim>>(
+                            &self,
+                            s: Ordering,
+                            f: Ordering,
+                            func: F,
+                        ) -> Result<$prim, $prim> {
+                            super::super::super::yield_point("atomic.rmw");
+                            self.0.fetch_update(s, f, func)
+                        }
+                        pub fn get_mut(&mut self) -> &mut $prim {
+                            self.0.get_mut()
+                        }
+                        pub fn into_inner(self) -> $prim {
+                            self.0.into_inner()
+                        }
+                    }
+                };
+            }
+
+            hooked_int!(AtomicUsize, ::std::sync::atomic::AtomicUsize, usize);
+            hooked_int!(AtomicU64, ::std::sync::atomic::AtomicU64, u64);
+            hooked_int!(AtomicU32, ::std::sync::atomic::AtomicU32, u32);
+            hooked_int!(AtomicI64, ::std::sync::atomic::AtomicI64, i64);
+
+            #[derive(Debug, Default)]
+            pub struct AtomicBool(::std::sync::atomic::AtomicBool);
+
+            impl AtomicBool {
+                pub const fn new(v: bool) -> Self {
+                    Self(::std::sync::atomic::AtomicBool::new(v))
+                }
+                pub fn load(&self, o: Ordering) -> bool {
+                    super::super::super::yield_point("atomic.load");
+                    self.0.load(o)
+                }
+                pub fn store(&self, v: bool, o: Ordering) {
+                    super::super::super::yield_point("atomic.store");
+                    self.0.store(v, o);
+                }
+                pub fn swap(&self, v: bool, o: Ordering) -> bool {
+                    super::super::super::yield_point("atomic.rmw");
+                    self.0.swap(v, o)
+                }
+                pub fn compare_exchange(
+                    &self,
+                    c: bool,
+                    n: bool,
+                    s: Ordering,
+                    f: Ordering,
+                ) -> Result<bool, bool> {
+                    super::super::super::yield_point("atomic.rmw");
+                    self.0.compare_exchange(c, n, s, f)
+                }
+                pub fn fetch_or(&self, v: bool, o: Ordering) -> bool {
+                    super::super::super::yield_point("atomic.rmw");
+                    self.0.fetch_or(v, o)
+                }
+                pub fn fetch_and(&self, v: bool, o: Ordering) -> bool {
+                    super::super::super::yield_point("atomic.rmw");
+                    self.0.fetch_and(v, o)
+                }
+            }
+        }
+    }
+
     /// `std::time` reading the simulated clock when one is installed.
     pub mod time {
         pub use ::std::time::{Duration, SystemTimeError, UNIX_EPOCH};
